@@ -318,4 +318,14 @@ theorem parse_append_incomplete (L : M.Lawful Inv) {s s' : σ} {raw : Bytes} {c 
     | none => simp [PRes.shift]
     | some r => simp
 
+theorem loop_cp' (M : Sys ε σ) {f : Nat} {s s' : σ} {rem : Bytes} {acc c : Nat}
+    (h : M.step s rem = .ok .completePart s' c) : M.loop (f + 1) s rem acc = M.loop f s' (rem.drop c) (acc + c) := by
+  conv => lhs; unfold Sys.loop
+  rw [h]
+
+theorem loop_cw' (M : Sys ε σ) {f : Nat} {s s' : σ} {rem : Bytes} {acc c : Nat}
+    (h : M.step s rem = .ok .completeWhole s' c) : M.loop (f + 1) s rem acc = some (.ok .complete s' (acc + c)) := by
+  conv => lhs; unfold Sys.loop
+  rw [h]
+
 end Sys
